@@ -51,7 +51,11 @@ struct Run {
 fn sh(script: &str) -> Run {
     let mut cfg = ShellCfg::stdin_script(script.as_bytes());
     cfg.step_limit = 200_000;
+    // the shell's own parser has no look-up limit: a substitution loop is
+    // caught by the watchdog (exit status 3, recorded as a hang)
+    crate::parse::watch(Some(script));
     let r = run_shell(cfg);
+    crate::parse::watch(None);
     Run { outcome: r.outcome_str(), status: r.status, stdout: r.stdout_str(), probes: r.probe_trace() }
 }
 
